@@ -29,7 +29,7 @@ WINDOWS = [1, 2, 5, 20, 100, 200]
 
 
 def gen_cases(tier, seed):
-    reps = {"quick": 2, "thorough": 20}[tier]
+    reps = {"quick": 4, "thorough": 20}[tier]
     n = {"quick": 150, "thorough": 2000}[tier]
     cases = []
     for name in streams.STRAT_NAMES:
